@@ -648,6 +648,10 @@ class Extractor:
                 for k, (xt, xp, xl) in enumerate(spec.sig_extra):
                     edits.append((it.body.start, it.body.start, xt + '\n' + indent, origin_fn(xp, xl), -1.9 + k * 0.01))
             self.anchor_edits(sf, it, body, spec, edits, q, origin_fn)
+            if self.vc.defines.get('canary') and spec.sig and not spec.external_body:
+                # vacuity canary: with the function's preconditions in force `false` must NOT be provable at entry
+                edits.append((it.body.open.end, it.body.open.end, '\n        proof { assert(false); } // [canary]\n', {'kind': 'canary', 'fn': q}, -9))
+                finfo['canary'] = True
         self.closure_rewrites(sf, body, spec, edits, q, origin_fn)
         segs = self.render(sf, it.start, it.end, self.dedup(edits))
         finfo['gen_start'] = len(self.out.lines) + 1
